@@ -5,6 +5,7 @@ import (
 	"encoding/json"
 	"fmt"
 	"os"
+	"strings"
 	"time"
 
 	"verif/mc/common"
@@ -145,6 +146,12 @@ func (x *Exec) check() *common.Violation {
 	for _, m := range x.Mons {
 		if v := m.Step(x.C); v != nil {
 			x.All = append(x.All, v)
+		}
+	}
+	for _, n := range x.C.Nodes {
+		if n.ConstructErr != "" {
+			x.All = append(x.All, &common.Violation{Property: "C14", Signature: "restart-failed:" + strings.SplitN(n.ConstructErr, ":", 2)[0],
+				Detail: fmt.Sprintf("creating n%d over its own storage failed: %s", n.Idx, n.ConstructErr)})
 		}
 	}
 	if len(x.All) > 0 {
@@ -371,6 +378,15 @@ func (d *DFS) step(x *Exec, p []sim.Event) bool {
 	e := p[len(p)-1]
 	d.Stats.Transitions++
 	d.count(e)
+	defer func() {
+		if r := recover(); r != nil {
+			var ps []string
+			for _, q := range p {
+				ps = append(ps, q.String())
+			}
+			panic(fmt.Sprintf("%v\n  at path: %s", r, strings.Join(ps, "; ")))
+		}
+	}()
 	v, err := x.Apply(e)
 	if err != nil {
 		panic(fmt.Sprintf("INFRA: enabled event %v could not be applied: %v", e, err))
